@@ -326,7 +326,7 @@ extern "C" void vx_constnode()
 #else
       new FALSEExpression();
 #endif
-  verif_assume(B.lval); B.v->to_lvalue(true);        /* the other operand is a variable: it survives both evaluations */
+  B.lval = true; B.v->to_lvalue(true);               /* the other operand is a variable: it survives both evaluations */
   SymExpr* e2 = new SymExpr(B.v);
 #ifdef VX_CFIRST
   VX_OP* op = new VX_OP(c, e2);
